@@ -38,7 +38,10 @@ MANIFEST = {
             "bundles and observed-data containers, nested objects, granular markings, the uncovered classes.",
     "design_ref": "DESIGN.md 6/C03, Appendix A.7; design_notes/C02-C03.md",
     "note": "Trusted: Coq kernel + vm_compute, tr_tables, the frozen specification tables /verif/spec and Spec/StixValid.v "
-            "(which also selects the spec-valid generated candidates), the preservation comparison of this file (JSON "
+            "(valid_obj_x -- valid_obj plus strict base64 for binary properties and no null / empty list inside dictionary "
+            "values -- selects the spec-valid generated candidates; the theorems are stated with valid_obj / valid_kind, which "
+            "admit MORE inputs, so they stay true; created <= modified is a co-constraint of the frozen tables and thus part "
+            "of both), the preservation comparison of this file (JSON "
             "equality; timestamps as exact rational instants; additions only default-valued optionals), the Python check "
             "that 2.0 object references are well typed. Oracle: ~800 presentations per quick run (alone / bundle / "
             "observed-data container / two-call sequences in one process).",
@@ -98,6 +101,10 @@ def preserved(inp, out, defaults, path=""):
         for k, v in out.items():
             if k not in inp and (k, json.dumps(v, sort_keys=True)) not in defaults:
                 return "%s.%s: property added with a non-default value %s" % (path, k, json.dumps(v)[:80])
+            # pattern_version has a default ("2.1", the specification version) only for the STIX pattern language
+            if k == "pattern_version" and k not in inp and "pattern_type" in inp and inp["pattern_type"] != "stix":
+                return "%s.%s: property added (%s) although pattern_type is %s, which has no such default" % (
+                    path, k, json.dumps(v)[:40], json.dumps(inp["pattern_type"])[:40])
         return None
     if isinstance(inp, list):
         if not isinstance(out, list) or len(inp) != len(out):
@@ -144,12 +151,20 @@ def boundary_fill(g, cid, o, rng):
                 x[n] = rng.choice(cands)
         elif t == "bool":
             x[n] = False
-        elif t == "string" and not s["required"] and n != "definition_type":
+        elif t == "string" and not s["required"] and n not in ("definition_type", "pattern_version"):
+            # (pattern_version names a version of the pattern language: "" / "0" are not certainly legal values, and
+            # v21 Indicator.__init__ replaces a falsy one by "2.1")
             x[n] = rng.choice(["", "0", "false", x[n]])
         elif t == "enum":
             x[n] = rng.choice(k["allowed"])
         elif t == "time" and n not in ("created", "modified"):
             pass
+        elif t == "binary":
+            # RFC 4648 text of every length class (0, 1, 2, 3 bytes), both special alphabet characters
+            x[n] = rng.choice(["", "QQ==", "QUI=", "QUJD", "/+8=", "++++", x[n]])
+    # the boundary of the common-property rule created <= modified: equal instants
+    if stixgen.versioned(c) and isinstance(x.get("created"), str) and "modified" in x and rng.random() < 0.3:
+        x["modified"] = x["created"]
     return x
 
 
@@ -330,6 +345,16 @@ def gen_candidates(run, g, per_class):
         x = long_list_marking(g, cid, base, rng)
         if x:
             cands.append((cid, x, "long-list-marking"))
+        if cid == "2.1/Indicator":
+            # pattern languages other than STIX: no pattern validator, no pattern_version default
+            for pt, pat in (("snort", 'alert tcp any any -> any any (msg:"x"; sid:1;)'), ("yara", "rule r { condition: true }"),
+                            ("pcre", "^a+$"), ("sigma", "title: t"), ("suricata", "alert ip any any -> any any (sid:2;)")):
+                x = dict(g.obj(cid, 0, {"safe": True}, optional_p=rng.choice([0.0, 0.5])))
+                x["pattern_type"], x["pattern"] = pt, pat
+                x.pop("pattern_version", None)
+                if rng.random() < 0.4:
+                    x["pattern_version"] = rng.choice(["3.0", "4.2.1", "2.0"])
+                cands.append((cid, x, "non-stix-pattern"))
     return cands
 
 
